@@ -36,7 +36,7 @@ CLAIMED = {
             "TLC checks that the property-level definition (Python range slicing with the two documented deviations) agrees "
             "with the transcription of the implemented algorithm on the whole bounded domain and emits every case; each is "
             "evaluated on handles obtained from Node(), Hugr.add_node(num_outs=) and children(); port identity facts checked directly. "
-            "Builder-returned handles are covered through the builder model (see level note).",
+            "Builder-returned handles: from the program generator and from every finished program of HugrBuilder.tla (HandleCounts).",
             "n <= 4/6, |i| <= 7/10, step in {None,1,2,3}; unknown-count handles only for i>=0, [:] and iteration.",
             "DESIGN.md §5 C16"),
     "C05": ("TLA+ term algebra HugrWire/HugrStd: TLC enumeration of type/param/arg/op/value terms with their specified wire "
@@ -113,17 +113,20 @@ CLAIMED = {
             "No lowering functions; byte identity and helper/definition agreement are binding checks on repository artefacts.",
             "DESIGN.md §5 C10"),
     "C01": ("TLA+ specs HugrValidity.tla (transcription of the reference validator, split into Builder / User obligations) and "
-            "HugrBuilder.tla (explicit state machine of the dataflow builders): TLC checks Finished => Valid(Doc) over all small builder "
-            "programs and replays every finished state on the real builders (S->C); TLC judges the raw wire documents of captured "
-            "repository test programs and seeded random well-formed programs (C->S)",
+            "HugrBuilder.tla (explicit state machine of every builder family: dataflow, conditional / if-else, tail loop, functions and "
+            "calls incl. Module roots and row-polymorphic calls, CFG with Dom wires, insert_*): TLC checks Finished => Valid(Doc) over all "
+            "small builder programs per family, replays every finished state and long random walks (TLC simulation) on the real builders "
+            "(S->C); TLC judges the raw wire documents of captured repository test programs and seeded random well-formed programs (C->S)",
             "TLC reads the documents exactly as the implementation wrote them and evaluates User(d) => Builder(d) (allowed children, "
             "IO/entry/exit/case positions and rows, port counts, kind and type at both ends of every edge, order edge for every Ext wire, "
             "no value edge into a function body, Dom edges, CFG successor rows, constants inhabit their type; acyclicity, dominance, "
             "linearity and input connectivity as the premise). Inputs: every document the repository's builder tests send to "
             "`hugr validate` (42, calibration) and 250 (quick) / 3000 random programs over all builder entry points of C01. Corrupted "
             "documents must be rejected on the expected clause.",
-            "The generator satisfies the premise by construction; extension-requirement inference and OpDef instantiation are not modelled; "
-            "an exhaustive HugrBuilder state-space leg is added by harness/props/builder_model.py when present (see evidence legs).",
+            "The generator satisfies the premise by construction; extension-requirement inference and OpDef instantiation are not modelled. "
+            "HugrBuilder leg (harness/props/builder_model.py): ~49 000 finished programs replayed in the quick tier, the serialized document "
+            "compared node for node and edge for edge with the specification's Doc, handle counts included; exhaustive per configuration "
+            "(Ops / Features / MaxCalls constants in the evidence legs), plus simulation walks of 14-22 calls with all families mixed.",
             "DESIGN.md §5 C01"),
     "C15": ("TLA+ spec HugrTracked.tla (tracked list + the explicit program it denotes): TLC complete state graph with "
             "FreedForGood/OnlyGrows/WellWired + paired replay on TrackedDfg and plain Dfg (S->C) + trace validation of random tracked "
@@ -136,13 +139,15 @@ CLAIMED = {
             "Non-negative indices; after a refused call (IndexError) the behaviour ends (partial effects are not compared).",
             "DESIGN.md §5 C15"),
     "C13": ("TLA+ spec HugrRefusals.tla (one decision function per inconsistency class, wire locality over a hierarchy skeleton): "
-            "TLC enumeration of every situation with its specified outcome + set-up and offending call on the real builders (S->C)",
+            "TLC enumeration of every situation with its specified outcome + set-up and offending call on the real builders (S->C); "
+            "HugrBuilder!BadNext: one inconsistent call at any position of any well-formed program of the builder state machine, replayed (S->C)",
             "TLC enumerates all row pairs for case / exit-branch / function outputs (3 variants of building the conditional, one nested), "
             "case indices -2..4 x built sets, unbuilt-case exits, polymorphic call/load uses (params x type args x instantiation x 4 entry "
             "points), call targets, wire sources, integer arguments (tracked / untracked / plain builder), incomplete serializations, and "
             "all 100 (source, target builder) pairs of a world HUGR with nested DFGs, two CFGs, blocks and a CFG nested in a block whose "
             "hierarchy is read back from the real object; the offending call must raise the documented class, consistent calls must be accepted.",
-            "The state after a refused call is not compared; Dom wires requested through builders nested below a block are unspecified.",
+            "The state after a refused call is not compared; Dom wires requested through builders nested below a block are unspecified. "
+            "BadNext leg: 33 600 (quick) / 963 000 (thorough) programs ending in a refusal, nine refusal situations, expected error class from WireVerdict etc.",
             "DESIGN.md §5 C13"),
     "C12": ("TLA+ spec ModelExport.tla (RegionsMirrorHierarchy, PortsAreValuePorts, LinkPartition, Hyperedge, SymbolsResolve, "
             "OrderHints, MetadataCarried) evaluated by TLC on pairs (raw wire document, exported model read as the Rust binding reads it) (C->S)",
